@@ -54,3 +54,8 @@ VARIANTS = [
  dict(id='c07-silent-words-ellipsis', prop='C07', kind='silent', file=B, old="values = values.swapaxes(0, -1)[self.words].swapaxes(0, -1)", new="values = values[..., self.words]"),
  dict(id='c07-tag-mapping-setdefault', prop='C07', expect='C07-D2', file='scared/selection_functions/base.py', old="        kwargs[self.target_name] = kwargs[self.target_tag]\n", new="        kwargs.setdefault(self.target_name, kwargs[self.target_tag])\n"),
 ]
+
+VARIANTS += [
+ dict(id='c07-p5ref4-pipeline-words-on-first-axis', prop='C07', base='P5-REF4', expect='C07-D2', file='scared/selection_functions/base.py',
+      old="            return values.swapaxes(0, -1)[self.words].swapaxes(0, -1)\n", new="            return values[self.words]\n"),
+]
